@@ -14,7 +14,9 @@ from ..fakeserial import FakePort, LegacyBoard, Profile
 PROPERTY = "C07"
 MAXLAT = 100            # empty reads a conforming board may put before each line
 
-EXCS = ("SerialException", "PortNotOpenError", "SerialTimeoutException", "OSError")
+# the four kinds pyserial raises, and RuntimeError, which the library's own except clauses name
+EXCS = ("SerialException", "PortNotOpenError", "SerialTimeoutException", "OSError",
+        "RuntimeError")
 PROFILE = Profile(write_exc=EXCS, read_exc=EXCS, latency=(0, 1, MAXLAT, MAXLAT + 1),
                   content=("err",), silent=True, read_window=3, late={MAXLAT, MAXLAT + 1})
 # sequences: conforming latencies plus the cheap faults
